@@ -89,24 +89,24 @@ partial def pCurve : Parser CurveVal
   | "c_ab" :: ts => do
     let (n, ts) ← pNat ts
     let (a, ts) ← pArr ts
-    pure (a.bind fun a => if a.WF then curveOk (a.curveOfBound n) else none, ts)
+    pure (a.bind fun a => if a.WF then curveOk (a.curveOfBoundIter n) else none, ts)
   | "c_abu" :: ts => do
     let (h, ts) ← pNat ts
     let (a, ts) ← pArr ts
-    pure (a.bind fun a => if a.WF then curveOk (a.curveOfBoundUntil h) else none, ts)
+    pure (a.bind fun a => if a.WF then curveOk (a.curveOfBoundUntilIter h) else none, ts)
   | "c_per" :: ts => do
     let (p, ts) ← pNat ts
     pure (some (curveOfPeriodic p), ts)
   | "c_spo" :: ts => do
     let (p, ts) ← pNat ts
     let (j, ts) ← pNat ts
-    pure (if p ≥ 1 then curveOk (curveOfSporadic p j) else none, ts)
+    pure (if p ≥ 1 then curveOk (curveOfSporadicIter p j) else none, ts)
   | "c_pre" :: ts => do
     let (pv, ts) ← pPrefix ts
     let ts := match ts with
       | "byval" :: r => r
       | r => r
-    pure (pv.bind fun (h, st) => if prefixWF h st then curveOk (curveOfPrefix h st) else none, ts)
+    pure (pv.bind fun (h, st) => if prefixWF h st then curveOk (curveOfPrefixIter h st) else none, ts)
   | "c_tr" :: ts => do
     let (p, ts) ← pNat ts
     let (tr, ts) ← pList pNat ts
